@@ -366,7 +366,74 @@ def _xml_unescape(e):
     return out
 
 
-BODIES = {"k-ttl-roundtrip-long": k_ttl_roundtrip_long, "k-plain-num": k_plain_num, "k-nt-writer": k_nt_writer, "k-nt-quoteliteral": k_nt_quoteliteral, "k-ttl-roundtrip": k_ttl_roundtrip,
+def k_rdfxml_lang(desc, F, l0, l1, l2):
+    """RDF/XML SAX handler driven directly with the event sequence of
+         <rdf:RDF [xml:lang=l0]> <rdf:Description rdf:about="urn:s" [xml:lang=l1]> <p [xml:lang=l2]>x</p> ...
+    (which attributes are present is part of the shape, their values are symbolic strings): the literal's language is the
+    innermost xml:lang in scope, and xml:lang="" switches an inherited language off"""
+    from xml.sax.xmlreader import AttributesNSImpl
+    from rdflib import Graph
+    from rdflib.plugins.parsers.rdfxml import RDFXMLHandler
+    for t in (l0, l1, l2):
+        for ch in t:
+            if ch not in "ab":
+                return None
+    RDFNS = "http://www.w3.org/1999/02/22-rdf-syntax-ns#"
+    XML = "http://www.w3.org/XML/1998/namespace"
+    present = desc["present"]
+
+    class Loc:
+        def getPublicId(self):
+            return None
+
+        def getSystemId(self):
+            return "urn:doc"
+
+        def getLineNumber(self):
+            return 1
+
+        def getColumnNumber(self):
+            return 1
+
+    def attrs(extra, lang, has):
+        d = dict(extra)
+        if has:
+            d[(XML, "lang")] = lang
+        return AttributesNSImpl(d, {k: k[1] for k in d})
+
+    g = Graph()
+    h = RDFXMLHandler(g)
+    h.setDocumentLocator(Loc())
+    h.startDocument()
+    try:
+        h.startElementNS((RDFNS, "RDF"), None, attrs({}, l0, present[0]))
+        h.startElementNS((RDFNS, "Description"), None, attrs({(RDFNS, "about"): "urn:s"}, l1, present[1]))
+        h.startElementNS(("urn:v#", "p"), None, attrs({}, l2, present[2]))
+        h.characters("x")
+        h.endElementNS(("urn:v#", "p"), None)
+        h.endElementNS((RDFNS, "Description"), None)
+        h.endElementNS((RDFNS, "RDF"), None)
+    except Exception as e:
+        return "the RDF/XML handler rejects a legal document (%s)" % type(e).__name__
+    want = None
+    for has, val in zip(present, (l0, l1, l2)):
+        if has:
+            want = val
+    if want == "":
+        want = None
+    lits = [o for _, _, o in g]
+    if len(lits) != 1:
+        return "the RDF/XML handler did not produce exactly the one statement of the document"
+    got = lits[0].language
+    if want is None:
+        if got is not None:
+            return "a literal outside any language scope (or after xml:lang=\"\") carries a language tag"
+    elif got is None or got.lower() != want.lower():
+        return "the literal does not carry the innermost xml:lang in scope"
+    return None
+
+
+BODIES = {"k-rdfxml-lang": k_rdfxml_lang, "k-ttl-roundtrip-long": k_ttl_roundtrip_long, "k-plain-num": k_plain_num, "k-nt-writer": k_nt_writer, "k-nt-quoteliteral": k_nt_quoteliteral, "k-ttl-roundtrip": k_ttl_roundtrip,
           "k-ttl-reader": k_ttl_reader, "k-nt-reader": k_nt_reader, "k-xml-text": k_xml_text}
 
 ESCAPES = ["", "\\n", "\\t", "\\\"", "\\'", "\\\\", "\\r", "\\b", "\\f", "\\u0041", "\\u00e9", "\\U0001F600", "\\u005C", "\\u0022"]
